@@ -1,4 +1,5 @@
 import json
+import os
 import vf
 
 HARNESS = dict(pkg_dir="index", run="TestVerifC01$", files=["index/zz_verif_c01_test.go"], n_quick=200, n_thorough=4000)
@@ -9,10 +10,13 @@ RULE = ("random corpora (1-4 repositories in simple / compound shards, 28 % of t
         "inside multi-byte runs, rarely empty) written with the real ShardBuilder and read back with NewSearcher, x query "
         "trees of depth <= 4 over all modelled atom kinds incl. Symbol{Substring} / Symbol{Regexp} (14 % of the atoms; patterns = a section text, inside "
         "one, straddling / just outside a section boundary) 30 % of the documents line-structured (1-4 lines of 1-4 words over a 9-word vocabulary, the word starting a line repeated alone on another line); "
+        "10 % of the atoms (+ 22 % of the regexp atoms) content regexps lit SEP lit (SEP lit) with 26 newline-capable separators ((?s:.*), (?s:.)*, (?s:.+), [\\s\\S]*, (?:.|\\n)*, [^q]*, \\s*, \\n, .*\\n.*, flag groups (?s (?i (?m (?U around the star or the whole regexp ...) and 12 same-line ones (.*, [^\\n]*, (?U:.*), (?m:.*) ...), "
+        "the literals taken from the same line / adjacent lines / the first and the last line / reversed (first word at column 0, last word at the line end or at the end of a file without final newline, random cuts), literals wrapped in (?i: ), ( ), (?m:^ ), (?m: $); "
         "9 % of the atoms content regexps of the same-line shape lit.*lit(.*lit) with the literals taken from ONE line (first word at column 0 / last word at the line end / random cuts, sometimes reversed) "
         "(patterns are substrings of real texts, case-flipped, boundary-straddling "
         "or noise; RepoSet / RepoIDs filters often contain every tombstoned repository plus as many alive ones as make matching = alive); non-trivial = the query selects a proper non-empty subset of the documents.")
-TRUSTED = ["correspondence harness harness/overlay/index/zz_verif_c01_test.go (generator, read-back of the index, serialiser, Go oracle)",
+TRUSTED = ["translator/c01distill (go/ast over regexpToMatchTreeRecursive's `switch r.Op`: operators with a clause, the OpStar rule, the final return -> Generated/DistillSwitch.v); the per-operator bodies other than OpStar's are tied by the differential run only",
+           "correspondence harness harness/overlay/index/zz_verif_c01_test.go (generator, read-back of the index, serialiser, Go oracle)",
            "texts modelled as rune lists: byte-level operations of the code on valid UTF-8 are taken to coincide with the rune-level model",
            "regexp engine, unicode.ToLower and unicode.SimpleFold are external (Section variables; tables recorded from Go in the run)",
            "posting lists at the level of sorted position lists (their byte coding is C09; only the byte SIZE of the delta-varint coding is modelled, for the trigram frequencies); nextFileIndex's galloping search as a linear scan",
@@ -22,10 +26,23 @@ ASSUME = ["documents are valid UTF-8", "symbol sections sorted, non-overlapping,
           "case-insensitive atoms: lower-casing and simple folding agree on the runes involved (otherwise C08)"]
 
 
+def regen_distill_switch(ctx):
+    """Regenerate coq/Generated/DistillSwitch.v from index/eval.go (regexpToMatchTreeRecursive) of the tree under check."""
+    rc, out = vf.sh(["go", "run", os.path.join(vf.ROOT, "translator", "c01distill", "main.go"), vf.REPO], cwd=ctx.tmp, env=vf.go_env(), timeout=300)
+    if rc != 0 or "Definition star_rules" not in out:
+        return "translator/c01distill failed (rc=%d): %s" % (rc, out[-1200:])
+    gen = out[out.index("(* GENERATED"):]
+    vf.write_if_changed(os.path.join(vf.COQ, "Generated", "DistillSwitch.v"), gen)
+    return None
+
+
 def run(ctx):
     pid = ctx.pid
-    proofs = vf.coq_props(ctx, pid)
     broken, failures = [], []
+    terr = regen_distill_switch(ctx)
+    if terr:
+        broken.append(terr)
+    proofs = vf.coq_props(ctx, pid)
     aok, aout = vf.audit()
     if not aok:
         proofs["ok"] = False
